@@ -49,6 +49,21 @@ with the expectations of the explicit call (the same oracle), and
   C14.defaults.same_as_explicit / C14.callform.same_as_explicit   the returned mesh (type, positions, elements, attributes
                      and their values) is the one the explicit call of the same case returns
   C14.defaults.signature   names, order and default values of inspect.signature() are the pinned, documented ones
+Round 5 (dimensions, each for the whole family):
+  C14.valid.coherent_object   'returns a mesh': every returned object (every form, every generator) is asked, through the
+                     library's own derived containers and queries, for what follows from its element list: face_corners /
+                     cell_corners (values and owners), edges = sides of the faces, connectivity.vertex_to_faces /
+                     vertex_to_vertices / direct_face, is_vertex_on_border, boundary_edges (surfaces), vertex_to_cell
+                     (volumes), vertex_to_vertices / edge_id (polylines) - compared with an incidence structure computed
+                     from the element list alone; one report per object (the first question that went wrong)
+  direction family   the axis of cylinder runs through every primitive integer direction of the cube |d|_inf <= 3 (290;
+                     thorough <= 4: 578) and through the coordinate axes tilted by 2^-k towards another axis; the input of
+                     cylindrify_edges has the 'star' of the same directions (unit edges, so the radius clause applies)
+  ownership          what the caller keeps, edited later, both ways (FORMS['ownership']): C14.ownership.result_follows_argument,
+                     C14.ownership.argument_follows_result, C14.ownership.vertices_own_their_storage
+  input:stale / input:warm   history of the input MESH of dual_mesh / cylindrify_edges / spherify_vertices (attributes
+                     requested and the generator called on the object before / after its vertices got the tested
+                     positions), judged by the same oracle                                  C14.history.<clause>
 A finding of a further form is reported only when the primary form of the same case did not show the same clause
 with the same witness (so a known finding is not reported a second time under another name; in another unit of length
 the witness is expressed in that unit, and scaling by a power of two is exact, so the witnesses coincide).
@@ -72,7 +87,12 @@ RULE = ("one case = one (generator, parameter vector): every generator of mouett
         "forms: per generator with options the all-default case, per option the cases with that option (only) at its "
         "default, and the no-default case, each called with the option left out / all options left out / all arguments "
         "positional / all options by keyword, judged by the same oracle and compared with the mesh of the explicit call; "
-        "the signature of every generator compared with the pinned documented one")
+        "the signature of every generator compared with the pinned documented one; round 5: the axis of cylinder and the "
+        "edges of the input of cylindrify_edges run through every primitive integer direction of a cube and the tilted "
+        "coordinate axes; every returned object is asked its derived containers and connectivity (coherent object); every "
+        "case is run once more as 'ownership' (arguments edited in place after the call / result moved in place: neither "
+        "follows the other, every vertex moves once) and, for generators that take a mesh, with an input object that has "
+        "a past (stale / warm attribute blackboard, the generator's own earlier call)")
 ASSUMPTIONS = [
     "admissible = periodic resolutions >= 3 (torus segments, cylinder N, sphere_uv n_long, ring N), sphere_uv n_lat >= 2, "
     "grid / unit_triangle resolutions >= 2, sphere_fibonacci n_pts >= 4, torus minor_radius < major_radius, "
@@ -111,27 +131,42 @@ ASSUMPTIONS = [
     "quick tier: the large cases of the defaults tasks (torus / sphere_uv above 100 vertices, icosphere(3), cylindrify N=50) "
     "are only compared explicit call vs option left out (same mesh), not handed to the oracle and not run in the "
     "positional / keyword forms; the thorough tier does both",
+    "coherent object: 'a mesh' is read as 'an object of the library whose derived containers and connectivity describe "
+    "its own element list'; asked only of results whose element list is well formed (where the list is broken the "
+    "structural chain reports it and the library documents no connectivity); asking is_vertex_on_border stores the "
+    "library's 'border' attribute on the result, which happens after the result was dumped for the call-form comparison",
+    "ownership: the generator returns a mesh that owns its data: editing an argument object in place after the call "
+    "does not change the mesh, moving the vertices of the mesh in place (v += t, as transform.translate does) changes no "
+    "argument object and moves every vertex exactly once (bitwise v + t). Element rows and attributes are not edited. "
+    "Argument objects are put back bitwise before the next call",
+    "history of the input mesh: an input mesh is admissible whatever was computed on it before (persistent quantities of "
+    "mouette.attributes, an earlier call of the generator), also when its vertices were moved afterwards through the "
+    "container API (vertices[i] = Vec): the unchanged tree recomputes what it needs from the current positions. The "
+    "distortion is one fixed invertible affine map; element containers of the input are not edited",
+    "direction family: directions are bounded by the cube (|d|_inf <= 3 quick, <= 4 thorough; ratios p/q of components "
+    "with |p|,|q| within the bound) and the tilts by the listed exponents; one (radius, N, caps, start point) per direction "
+    "in quick, chosen by rotation with the index (every value of each occurs), both caps settings in thorough",
     "cylindrify_edges in another unit of length: the scaled polyline is one more member of the primary input class "
     "'mean edge length != 1', so a radius mismatch found there is reported in that class of the primary clause (it is the "
     "known finding: the radius is taken relative to the mean edge length), not as a finding of the unit deviation; every "
     "other clause of cylindrify_edges is reported under C14.unit.*",
 ]
 BOUNDS = {
-    "quick": "862 cases, each run as primary + repeat (862) + int_dtype (364, generators taking points) + "
+    "quick": "1204 cases, each run as primary + repeat (1204) + ownership (1204) + int_dtype (654, generators taking points) + "
              "default_argument (75, origin-centred cases of generators with a default centre): resolutions 3..6 per axis "
-             "independently (unit_grid/unit_triangle 2..6, sphere_uv n_lat 2..6), radii {1/2,1,2}, centres {0,(1,2,3)}, 4 lattice axes, torus radii {(1,1/4),(2,1/2)}, ring N 3..6 x defects "
+             "independently (unit_grid/unit_triangle 2..6, sphere_uv n_lat 2..6), radii {1/2,1,2}, centres {0,(1,2,3)}, 4 lattice axes + the direction family of cylinder (290 primitive directions of the cube |d|_inf <= 3, 48 coordinate axes tilted by 2^-10, 2^-19, 2^-20, 2^-30; one (radius, N, caps, start) each by rotation) and its star as input of cylindrify_edges (338 unit edges, N 3..6), torus radii {(1,1/4),(2,1/2)}, ring N 3..6 x defects "
              "{0,0.3,pi/2,pi,6,6.2} x open x covers {1,2}, icosphere 0..2, fibonacci 4..12, chains 1..6 vertices, all switch "
-             "combinations, dual_mesh of 11 closed + 7 bordered generator outputs x 2 modes; unit of length: the 562 cases of "
-             "the 16 generators with a length-like parameter x {2^-12, 2^-24, 2^12} = 1686 runs; "
+             "combinations, dual_mesh of 11 closed + 7 bordered generator outputs x 2 modes; history of the input mesh (stale / warm blackboard + earlier call): the 84 cases of dual_mesh, cylindrify_edges, spherify_vertices(PointCloud) x 2 = 168 runs; coherent object asked of every result of every run; unit of length: the 904 cases of "
+             "the 16 generators with a length-like parameter x {2^-12, 2^-24, 2^12} = 2712 runs; "
              "documented defaults / call forms: 80 cases of the 20 generators with options (all-default, one-default, "
              "no-default) run as 72 option-left-out + 70 positional + 70 keyword calls, 23 signatures compared",
-    "thorough": "4316 cases, each run as primary + repeat (4316) + int_dtype (1244) + default_argument (351): "
+    "thorough": "5708 cases, each run as primary + repeat (5708) + ownership (5708) + int_dtype (2400) + default_argument (351): "
                 "resolutions 3..12 per axis independently (unit_grid/unit_triangle 2..12, sphere_uv n_lat 2..12), "
-                "radii {1/2,1,2}, centres {0,(1,2,3)}, 6 lattice axes, 5 torus radius pairs, ring N 3..12 x defects "
+                "radii {1/2,1,2}, centres {0,(1,2,3)}, 6 lattice axes + direction family of cylinder (578 primitive directions of |d|_inf <= 4, 108 tilted axes 2^-10..2^-52, x caps) and its star for cylindrify_edges (686 unit edges, N 3..12 x 2 radii), 5 torus radius pairs, ring N 3..12 x defects "
                 "{0,0.3,pi/2,pi,5,6,6.2,2pi-0.01} x open x covers {1,2,3}, icosphere 0..4, fibonacci 4..80, chains 1..12 vertices, "
                 "tetrahedron on all 24 orderings of a lattice quadruple, all switch combinations, dual_mesh of 18 closed + "
-                "12 bordered generator outputs x 2 modes; unit of length: the 2864 cases of the 16 generators with a "
-                "length-like parameter x {2^-12, 2^-24, 2^-40 (sphere_fibonacci surface: 2^-30), 2^12, 2^24, 2^40} = 17184 runs; "
+                "12 bordered generator outputs x 2 modes; history of the input mesh: 178 cases x 2 = 356 runs; unit of length: the 4256 cases of the 16 generators with a "
+                "length-like parameter x {2^-12, 2^-24, 2^-40 (sphere_fibonacci surface: 2^-30), 2^12, 2^24, 2^40} = 25536 runs; "
                 "documented defaults / call forms: the 80 cases of quick (large ones with the oracle too) + the whole quick "
                 "box of the 20 generators with options: 787 option-left-out + 932 positional + 932 keyword calls, 23 "
                 "signatures compared",
@@ -418,6 +453,27 @@ CALL_FORMS = ["positional", "keyword", "omit:ALL"] + sorted({"omit:" + n for opt
 for _f in CALL_FORMS:
     FORMS[_f] = {"calls": 1, "dtype": "float"}
     FORM_CLAUSE[_f] = ("callform", _f) if not _f.startswith("omit:") else ("defaults", "omitted=" + _f[5:])
+# ---- histories (round 5) ---------------------------------------------------------------------------------------------
+#   ownership         what the caller keeps, edited later (both ways).  One extra call on the argument objects of the case;
+#                     (1) every argument object (point / array arguments, the vertices of an input mesh, array-valued default
+#                     argument objects) is edited IN PLACE, the returned mesh must stay what it was; the objects are put back;
+#                     (2) every vertex of the returned mesh is moved in place (v += t, what transform.translate does): each
+#                     vertex must have moved exactly once (bitwise v + t) and no argument object may have changed.  Then the
+#                     generator is called again on the same objects and that result is judged by the oracle.
+#                     Cases of a generator with a default centre whose centre is the origin leave the centre out, so that the
+#                     default argument object takes part.
+#   input:stale       history of the input mesh (generators that take a mesh: dual_mesh, cylindrify_edges, spherify_vertices
+#                     on a PointCloud): the mesh is first built on an affinely distorted copy of the geometry, every persistent
+#                     quantity of mouette.attributes is requested on it and the generator itself is called on it once; then
+#                     the vertices are moved to the tested positions through the container API and the case is run
+#   input:warm        the same on the tested geometry (every stored value is right, only its presence can matter)
+FORMS["ownership"] = {"calls": 1, "dtype": "float", "ownership": True}
+FORM_CLAUSE["ownership"] = ("ownership", "kept_objects_edited_later")
+FORMS["input:stale"] = {"calls": 1, "dtype": "float", "input_history": "stale"}
+FORM_CLAUSE["input:stale"] = ("history", "stale_attribute_blackboard_on_input")
+FORMS["input:warm"] = {"calls": 1, "dtype": "float", "input_history": "warm"}
+FORM_CLAUSE["input:warm"] = ("history", "warm_attribute_blackboard_on_input")
+OWNERSHIP_SHIFT = (8.0, -4.0, 2.0)
 _ACTIVE = {"form": "primary", "rep": None, "log": None, "unit": 1.0, "tier": "quick", "facts": None, "dump": False, "light": False}
 
 
@@ -532,6 +588,44 @@ class Cx:
         self.calls = FORMS[self.form]["calls"]
         self.dtype = FORMS[self.form]["dtype"]
         self.unit = 2.0 ** FORMS[self.form].get("unit", 0)      # exact power of two
+        self.ownership = bool(FORMS[self.form].get("ownership"))
+        self.input_history = FORMS[self.form].get("input_history")
+
+    def omit_centre(self, p):
+        """the centre is left to the generator's default (documented: the origin)"""
+        return self.form == "default_argument" or (self.ownership and all(c == 0 for c in p["center"]))
+
+    def input_mesh(self, M, kind, P, elems, earlier_call):
+        """the input mesh of a generator that takes one.  kind 'surface' | 'polyline' | 'points', P the vertex positions
+        (float array, already in the unit of the case), elems the faces / edges.  In the input-history forms the object
+        has a past (see FORMS): attributes requested and the generator called on it, before (stale) or after (warm) the
+        vertices got the tested positions."""
+        np = _np()
+        from mc import c14_more as X
+
+        def build(Q):
+            if kind == "points":
+                return M.mesh.from_arrays(np.array(Q, float))
+            raw = M.mesh.RawMeshData()
+            raw.vertices += [M.Vec(*[float(c) for c in q]) for q in Q]
+            if kind == "surface":
+                raw.faces += [[int(v) for v in f] for f in elems]
+                return M.mesh.SurfaceMesh(raw)
+            raw.edges += [[int(v) for v in e] for e in elems]
+            return M.mesh.PolyLine(raw)
+        P = np.array(P, float).reshape(-1, 3)
+        if self.input_history is None:
+            return build(P)
+        mesh = build([X.distort(q) for q in P] if self.input_history == "stale" else P)
+        X.request_all_persistent_attributes(mesh)
+        o = call(earlier_call, mesh)           # the generator's own earlier call on the object (its outcome is not judged here)
+        self.rep.count("input_history_earlier_call:" + ("ok" if o.ok else "raises"))
+        if self.input_history == "stale":
+            for i, q in enumerate(P):
+                mesh.vertices[i] = M.Vec(*[float(c) for c in q])
+        if X.n_attributes(mesh) > 0:
+            self.rep.count("input_history_attributes_present:" + self.gen)
+        return mesh
 
     def bad(self, sub, kind, icls, callee=None, member_of_primary_class=False, **detail):
         """member_of_primary_class: the finding of a further form is reported under the plain clause and class because
@@ -712,6 +806,136 @@ def _arg_names(fn, a, k):
     return out + [(n, k[n]) for n in sorted(k)]
 
 
+def coherent_object(cx: Cx, mesh, icls):
+    """C14.valid.coherent_object: 'returns a mesh': the returned OBJECT is a mesh of the library, i.e. what it answers
+    through its derived containers (edges, face_corners, cell_corners) and its connectivity / border queries is the
+    incidence structure of its own face / cell / edge list.  Judged for every result whose element list is well formed
+    (indices in range, distinct vertices per element, every edge in <= 2 faces, one fan per vertex): where the list itself
+    is broken the structural chain says so and the library documents no connectivity."""
+    from mc import c14_more as X
+    tname = type(mesh).__name__
+    kind = {"SurfaceMesh": "surface", "VolumeMesh": "volume", "PolyLine": "polyline"}.get(tname)
+    if kind is None:
+        cx.rep.count("coherence_not_applicable:" + tname)
+        return
+    def well_formed():
+        n = len(mesh.vertices)
+        if kind == "surface":
+            return analyse(faces_of(mesh), n)["broken"] is None
+        if kind == "volume":
+            return not any(v < 0 or v >= n for c in mesh.cells for v in c)
+        return (not any(v < 0 or v >= n for e in mesh.edges for v in e)
+                and len({tuple(sorted(map(int, e))) for e in mesh.edges}) == len(mesh.edges))
+    w = call(well_formed)
+    if not (w.ok and w.value):
+        cx.rep.count("coherence_not_examined_on_structurally_broken_mesh")
+        return
+    o = call(X.coherence_findings, mesh, kind)
+    cx.ev(6)
+    cx.rep.count("coherence_examined:" + kind)
+    if not o.ok:
+        cx.bad("valid.coherent_object", exc_kind(o), icls, msg=o.msg[:300], result_type=tname)
+        return
+    for fkind, witness in o.value[:1]:      # one report per object: the first question that went wrong (containers first)
+        cx.rep.outcome("coherence", fkind)
+        cx.bad("valid.coherent_object", fkind, icls, result_type=tname, further_findings=[k_ for k_, _w in o.value[1:]], **witness)
+    if not o.value:
+        cx.rep.outcome("coherence", "coherent")
+
+
+def _editable_arrays(x, path):
+    """[(path, ndarray)]: the arrays a caller can edit in place inside an argument object (arrays themselves, the items
+    of sequences, the vertex arrays of an input mesh)"""
+    np = _np()
+    if isinstance(x, np.ndarray):
+        return [(path, x)] if x.flags.writeable and x.dtype.kind in "iuf" and x.size else []
+    if hasattr(x, "vertices") and hasattr(x, "id_vertices"):
+        out = []
+        for i in x.id_vertices:
+            v = x.vertices[i]
+            if isinstance(v, np.ndarray) and v.flags.writeable:
+                out.append((f"{path}.vertices[{i}]", v))
+        return out
+    if isinstance(x, (list, tuple)):
+        return [pa for j, y in enumerate(x) for pa in _editable_arrays(y, f"{path}[{j}]")]
+    return []
+
+
+def ownership_step(cx: Cx, result, before):
+    """what the caller keeps is edited later, both ways (see FORMS['ownership']).  `before` = the argument and default
+    argument objects with their snapshots.  Everything edited here is put back bitwise before returning."""
+    np = _np()
+    icls = cx.gen
+    o = call(mesh_dump, result)
+    if not o.ok:
+        cx.rep.count("ownership_dump_failed")
+        return
+    d0 = o.value
+    # (1) edit every argument object in place; the mesh that was returned stays what it was
+    for name, x, _snap, is_default in before:
+        arrays = _editable_arrays(x, name)
+        if not arrays:
+            continue
+        saved = [np.array(arr, copy=True) for _p, arr in arrays]
+        try:
+            for _p, arr in arrays:
+                arr += arr.dtype.type(5)
+            cx.ev()
+            cx.rep.count("ownership_argument_edited:" + ("default_argument" if is_default else "mesh" if hasattr(x, "id_vertices") else "array"))
+            o = call(mesh_dump, result)
+            d1 = o.value if o.ok else {"raises": o.exc}
+            field = dump_difference(d0, d1) if o.ok else "dump_raises"
+            cx.rep.outcome("ownership:argument_edited", "result_unchanged" if field is None else "result_changed")
+            if field is not None:
+                cx.bad("ownership.result_follows_argument", "side_effect:result_changed_by_editing_an_argument_object",
+                       f"{cx.gen}:" + ("default_argument" if is_default else "argument"), member_of_primary_class=True,
+                       argument=name, edit="every entry += 5 (in place), after the generator returned",
+                       first_differing_field=field, result_before=dump_summary(d0),
+                       result_after=dump_summary(d1) if o.ok else d1)
+        finally:
+            for (_p, arr), s in zip(arrays, saved):
+                np.copyto(arr, s, casting="unsafe")
+    # (2) move every vertex of the returned mesh in place: each one moves exactly once, no argument object changes
+    if not hasattr(result, "vertices") or len(result.vertices) == 0:
+        return
+    t = np.array(OWNERSHIP_SHIFT, float)
+    V0 = raw_verts_of(result)
+    snaps = [(name, x, snapshot(x), is_default) for name, x, _s, is_default in before]
+    arrays = [pa for name, x, _s, _d in before for pa in _editable_arrays(x, name)]
+    saved = [np.array(arr, copy=True) for _p, arr in arrays]
+    try:
+        def move():
+            for i in result.id_vertices:
+                result.vertices[i] += t
+        o = call(move)
+        cx.ev(2)
+        cx.rep.count("ownership_result_moved")
+        if not o.ok:
+            cx.bad("ownership.result_editable", exc_kind(o), icls, member_of_primary_class=True, msg=o.msg[:200],
+                   edit="result.vertices[i] += t for every vertex id")
+            return
+        V1 = raw_verts_of(result)
+        want = V0 + t
+        twice = [i for i in range(len(V0)) if not np.array_equal(V1[i], want[i])]
+        cx.rep.outcome("ownership:result_moved", "each_vertex_once" if not twice else "some_vertex_not_once")
+        if twice:
+            i = twice[0]
+            cx.bad("ownership.vertices_own_their_storage", "side_effect:vertex_not_moved_exactly_once", icls, member_of_primary_class=True,
+                   edit="result.vertices[i] += t for every vertex id", t=list(OWNERSHIP_SHIFT), vertices=twice[:8],
+                   vertex=i, before=V0[i].tolist(), after=V1[i].tolist(), want=want[i].tolist())
+        for name, x, snap, is_default in snaps:
+            now = snapshot(x)
+            if now != snap:
+                cx.bad("ownership.argument_follows_result", "side_effect:argument_changed_by_editing_the_result",
+                       f"{cx.gen}:" + ("default_argument" if is_default else "argument"), member_of_primary_class=True,
+                       argument=name, edit="result.vertices[i] += t for every vertex id", t=list(OWNERSHIP_SHIFT),
+                       before=snap, after=now)
+                break
+    finally:
+        for (_p, arr), s in zip(arrays, saved):
+            np.copyto(arr, s, casting="unsafe")
+
+
 def run_generator(cx: Cx, fn, icls, *a, **k):
     """call the generator (cx.calls times in a row on the SAME argument objects; the last result goes to the oracle);
     an exception on an admissible input is a violation, and so is any change of an argument object or of a default
@@ -726,6 +950,15 @@ def run_generator(cx: Cx, fn, icls, *a, **k):
     saved_defaults = [(x, np.array(x, copy=True)) for _n, x in defaults]
     result, reported = None, False
     try:
+        if cx.ownership:
+            cx.rep.transitions += 1
+            cx.rep.traces += 1
+            o = call(fn, *a, **k)
+            cx.rep.outcome("call:" + cx.gen, "ok" if o.ok else o.exc)
+            if o.ok and o.value is not None:
+                o2 = call(ownership_step, cx, o.value, before)
+                if not o2.ok:      # the returned object cannot even be dumped / edited as a mesh
+                    cx.bad("ownership.result_editable", exc_kind(o2), cx.gen, member_of_primary_class=True, msg=o2.msg[:300])
         for call_no in range(1, cx.calls + 1):
             cx.rep.transitions += 1
             cx.rep.traces += 1
@@ -763,6 +996,7 @@ def run_generator(cx: Cx, fn, icls, *a, **k):
         # explicit call of the same case (the oracle sees these sizes in the thorough tier)
         cx.rep.count("callform_light_runs")
         return None
+    coherent_object(cx, result, icls)
     if cx.unit != 1.0 and hasattr(result, "vertices") and len(result.vertices):
         # vacuity guard of the unit deviation: the returned coordinates really live at the deviated scale (every box
         # has extents within [0.05, 16] units: below 16*2^-12 < 0.01 resp. above 0.05*2^12 > 100)
@@ -1012,7 +1246,7 @@ def enum_icosahedron(tier):
 def check_icosahedron(M, p, rep):
     cx = Cx(rep, "icosahedron", p)
     icls = "icosahedron"
-    if cx.form == "default_argument":      # the documented default centre is the origin
+    if cx.omit_centre(p):      # the documented default centre is the origin
         m = run_generator(cx, M.procedural.icosahedron, icls, radius=p["radius"], uv=p["uv"])
     else:
         m = run_generator(cx, M.procedural.icosahedron, icls, cx.pt(M, p["center"]), cx.ln(p["radius"]), p["uv"])
@@ -1032,10 +1266,30 @@ AXES = [[[0, 0, 0], [0, 0, 1]], [[0, 0, 0], [1, 0, 0]], [[1, 2, 3], [2, 0, 5]], 
         [[1, 1, 1], [1, 4, 1]], [[-1, 0, 2], [2, 3, -1]]]
 
 
+# direction family (round 5): the axis of a cylinder runs through EVERY primitive integer direction of the cube
+# |d|_inf <= 2 (98 directions; thorough <= 3: 290) - all sign patterns, every ratio of two components, every angle to
+# each coordinate axis that the cube offers - and through the coordinate axes tilted by 2^-k towards another axis
+# (k = 10, 19, 20, 30 - around the 1e-6 below which a generator may have to pick another auxiliary vector; thorough more);
+# radius, N, caps and the starting point rotate with the index of the direction (a rule, every value of each occurs)
+TILT_EXPONENTS = {"quick": [10, 19, 20, 30], "thorough": [10, 15, 19, 20, 21, 25, 30, 40, 52]}
+DIRECTION_CUBE = {"quick": 3, "thorough": 4}
+
+
+def direction_family(tier):
+    from mc import c14_more as X
+    return ([(d, "lattice") for d in X.primitive_directions(DIRECTION_CUBE[tier])] + X.tilted_axes(TILT_EXPONENTS[tier]))
+
+
 def enum_cylinder(tier):
     axes = AXES[:4] if tier == "quick" else AXES
-    return [{"P1": a[0], "P2": a[1], "radius": r, "N": n, "fill_caps": fc}
-            for a in axes for r in RADII for n in _res(tier) for fc in BOOLS]
+    out = [{"P1": a[0], "P2": a[1], "radius": r, "N": n, "fill_caps": fc}
+           for a in axes for r in RADII for n in _res(tier) for fc in BOOLS]
+    for i, (d, label) in enumerate(direction_family(tier)):
+        P1 = [0, 0, 0] if (i // 24) % 2 == 0 else [1, 2, 3]
+        for fc in ([bool((i // 12) % 2)] if tier == "quick" else BOOLS):
+            out.append({"P1": P1, "P2": [P1[j] + d[j] for j in range(3)], "radius": RADII[i % 3], "N": 3 + (i // 3) % 4,
+                        "fill_caps": fc, "family": "direction:" + label})
+    return out
 
 
 def _cylinder_geometry(cx, P, idx, P1, P2, radius, N, icls, caps):
@@ -1097,6 +1351,8 @@ def check_cylinder(M, p, rep):
     if m is None or not cx.expect_type(m, "SurfaceMesh", icls):
         return
     rep.flag(f"fill_caps={p['fill_caps']}")
+    if "family" in p and cx.form == "primary":
+        rep.count("direction_cases:" + p["family"].split(":")[1])
     res = cx.structural(m, icls, "sphere" if p["fill_caps"] else "annulus")
     cx.counts(m, icls, nv=2 * N + (2 if p["fill_caps"] else 0), nf=4 * N if p["fill_caps"] else 2 * N)
     cx.arity(res["faces"], 3, icls, "counts.face_arity")
@@ -1159,7 +1415,7 @@ def check_sphere_uv(M, p, rep):
     cx = Cx(rep, "sphere_uv", p)
     a, b = p["n_lat"], p["n_long"]
     icls = "sphere_uv"
-    if cx.form == "default_argument":
+    if cx.omit_centre(p):
         m = run_generator(cx, M.procedural.sphere_uv, icls, a, b, radius=p["radius"])
     else:
         m = run_generator(cx, M.procedural.sphere_uv, icls, a, b, cx.pt(M, p["center"]), cx.ln(p["radius"]))
@@ -1188,7 +1444,7 @@ def check_icosphere(M, p, rep):
     cx = Cx(rep, "icosphere", p)
     k = p["n_refine"]
     icls = "icosphere:n_refine=0" if k == 0 else "icosphere:n_refine>0"
-    if cx.form == "default_argument":
+    if cx.omit_centre(p):
         m = run_generator(cx, M.procedural.icosphere, icls, k, radius=p["radius"])
     else:
         m = run_generator(cx, M.procedural.icosphere, icls, k, cx.pt(M, p["center"]), cx.ln(p["radius"]))
@@ -1526,6 +1782,11 @@ def check_dual_mesh(M, p, rep):
         raw.vertices += [M.Vec(*[float(c) * cx.unit for c in v]) for v in src.vertices]
         raw.faces += [[int(v) for v in f] for f in src.faces]
         src = M.mesh.SurfaceMesh(raw)
+    if cx.input_history is not None:      # the same surface as an object with a past
+        if p["mode"] == "circumcenter" and any(len(f) != 3 for f in src.faces):
+            rep.count("dual_circumcenter_on_non_triangles_skipped")
+            return
+        src = cx.input_mesh(M, "surface", raw_verts_of(src), faces_of(src), lambda m_: M.procedural.dual_mesh(m_, p["mode"]))
     Fp = faces_of(src)
     Pp = verts_of(src)
     if p["mode"] == "circumcenter" and any(len(f) != 3 for f in Fp):
@@ -1665,7 +1926,11 @@ def check_spherify_vertices(M, p, rep):
     k = p["n_subdiv"]
     icls = "spherify_vertices:n_subdiv=0" if k == 0 else "spherify_vertices:n_subdiv>0"
     pts = np.array(p["pts"], float)
-    arg = M.mesh.from_arrays(pts * cx.unit) if p["as"] == "PointCloud" else cx.arr(pts)
+    if p["as"] == "PointCloud" and cx.input_history is not None:
+        arg = cx.input_mesh(M, "points", pts * cx.unit, None,
+                            lambda m_: M.procedural.spherify_vertices(m_, cx.ln(p["radius"]), k))
+    else:
+        arg = M.mesh.from_arrays(pts * cx.unit) if p["as"] == "PointCloud" else cx.arr(pts)
     m = run_generator(cx, M.procedural.spherify_vertices, icls, arg, cx.ln(p["radius"]), k)
     if m is None or not cx.expect_type(m, "SurfaceMesh", icls):
         return
@@ -1694,19 +1959,40 @@ POLYLINES = [  # (points, edges); the first two have mean edge length 1
 ]
 
 
+def _polyline(key, tier):
+    """(points, edges) of the input polyline of a case: a member of POLYLINES or the 'star' of the direction family:
+    vertex 0 at the origin joined to d / |d| for every direction d of direction_family(tier) - every edge has length 1
+    (mean edge length 1 within rounding), so the radius clause applies to it as documented"""
+    if key != "star":
+        return POLYLINES[key]
+    pts, edges = [[0.0, 0.0, 0.0]], []
+    for d, _label in direction_family(tier):
+        L = math.sqrt(sum(c * c for c in d))
+        pts.append([c / L for c in d])
+        edges.append([0, len(pts) - 1])
+    return pts, edges
+
+
 def enum_cylindrify_edges(tier):
-    return [{"poly": i, "radius": r, "N": n} for i in range(len(POLYLINES)) for r in (0.05, 0.25) for n in _res(tier)]
+    out = [{"poly": i, "radius": r, "N": n} for i in range(len(POLYLINES)) for r in (0.05, 0.25) for n in _res(tier)]
+    # the star of the direction family (338 edges in quick): every N; quick: the two radii alternate with N (a rotation)
+    out += [{"poly": "star", "radius": r, "N": n} for j, n in enumerate(_res(tier)) for r in ((0.05, 0.25) if tier == "thorough" else ((0.05, 0.25)[j % 2],))]
+    return out
 
 
 def check_cylindrify_edges(M, p, rep):
     np = _np()
     cx = Cx(rep, "cylindrify_edges", p)
-    pts, edges = POLYLINES[p["poly"]]
+    pts, edges = _polyline(p["poly"], _ACTIVE["tier"])
     pts = np.array(pts, float)
     lens = [float(np.linalg.norm(pts[a] - pts[b])) for a, b in edges]
     mean_len = sum(lens) / len(lens) * cx.unit          # of the polyline that is handed over
     icls = "cylindrify_edges:mean_edge_length" + ("==1" if abs(mean_len - 1) < 1e-12 else "!=1")
-    pl = M.mesh.from_arrays(pts * cx.unit, E=np.array(edges))
+    if cx.input_history is not None:
+        pl = cx.input_mesh(M, "polyline", pts * cx.unit, edges,
+                           lambda m_: M.procedural.cylindrify_edges(m_, cx.ln(p["radius"]), p["N"]))
+    else:
+        pl = M.mesh.from_arrays(pts * cx.unit, E=np.array(edges))
     assert type(pl).__name__ == "PolyLine" and sorted(tuple(sorted(map(int, e))) for e in pl.edges) == sorted(map(tuple, edges))
     N = p["N"]
     m = run_generator(cx, M.procedural.cylindrify_edges, icls, pl, cx.ln(p["radius"]), N)
@@ -1727,9 +2013,10 @@ def check_cylindrify_edges(M, p, rep):
     for v in range(len(P)):
         groups.setdefault(_find(par, v), []).append(v)
     left = list(range(ne))
+    mids = np.array([(pts[a] + pts[b]) / 2 for a, b in edges])
     for g in groups.values():
         cen = P[g].mean(axis=0)
-        j = min(left, key=lambda e: float(np.linalg.norm((pts[edges[e][0]] + pts[edges[e][1]]) / 2 - cen)))
+        j = left[int(np.linalg.norm(mids[left] - cen, axis=1).argmin())]
         left.remove(j)
         a, b = edges[j]
         # the generator may orient the cylinder either way along the edge
@@ -1777,15 +2064,15 @@ GENERATORS = {
 # size of every parameter box (pinned: a change of the enumeration must be deliberate)
 PINNED = {
     "quick": {'tetrahedron': 8, 'hexahedron': 24, 'axis_aligned_cube': 4, 'hexahedron_4pts': 16, 'octahedron': 1,
-              'dodecahedron': 1, 'icosahedron': 12, 'cylinder': 96, 'torus': 64, 'sphere_uv': 120, 'icosphere': 18,
+              'dodecahedron': 1, 'icosahedron': 12, 'cylinder': 434, 'torus': 64, 'sphere_uv': 120, 'icosphere': 18,
               'sphere_fibonacci': 54, 'triangle': 4, 'quad': 8, 'unit_grid': 100, 'unit_triangle': 50, 'ring': 96,
               'flat_ring': 48, 'dual_mesh': 36, 'chain_of_vertices': 10, 'vector_field': 36, 'spherify_vertices': 24,
-              'cylindrify_edges': 32},                                                             # 862 cases
+              'cylindrify_edges': 36},                                                             # 1204 cases
     "thorough": {'tetrahedron': 54, 'hexahedron': 24, 'axis_aligned_cube': 4, 'hexahedron_4pts': 16, 'octahedron': 1,
-                 'dodecahedron': 1, 'icosahedron': 12, 'cylinder': 360, 'torus': 1000, 'sphere_uv': 660, 'icosphere': 30,
+                 'dodecahedron': 1, 'icosahedron': 12, 'cylinder': 1732, 'torus': 1000, 'sphere_uv': 660, 'icosphere': 30,
                  'sphere_fibonacci': 462, 'triangle': 4, 'quad': 8, 'unit_grid': 484, 'unit_triangle': 242, 'ring': 480,
                  'flat_ring': 240, 'dual_mesh': 60, 'chain_of_vertices': 22, 'vector_field': 36, 'spherify_vertices': 36,
-                 'cylindrify_edges': 80},                                                          # 4316 cases
+                 'cylindrify_edges': 100},                                                         # 5708 cases
 }
 
 
@@ -1803,6 +2090,11 @@ ORIGIN_DEFAULT = ("icosahedron", "sphere_uv", "icosphere")     # generators whos
 UNIT_GENERATORS = ("tetrahedron", "hexahedron", "hexahedron_4pts", "icosahedron", "cylinder", "torus", "sphere_uv",
                    "icosphere", "sphere_fibonacci", "triangle", "quad", "dual_mesh", "chain_of_vertices", "vector_field",
                    "spherify_vertices", "cylindrify_edges")
+
+
+def takes_mesh(gen, p):
+    """the generator is handed a mesh object (which may have a past)"""
+    return gen in ("dual_mesh", "cylindrify_edges") or (gen == "spherify_vertices" and p["as"] == "PointCloud")
 
 
 def unit_exponents(gen, p, tier):
@@ -1832,6 +2124,9 @@ def forms_of(gen, p):
         out.append("default_argument")
     if gen in UNIT_GENERATORS:
         out += ["unit:2^%d" % e for e in unit_exponents(gen, p, _ACTIVE["tier"])]
+    out.append("ownership")
+    if takes_mesh(gen, p):
+        out += ["input:stale", "input:warm"]
     return out
 
 
@@ -1897,7 +2192,7 @@ def run_case(M, gen, chk, p, rep, forms=None, same_mesh=False, light=False):
             if f.startswith("form:"):
                 rep.flag(f)
         for name, n in scratch.counters.items():
-            if name.startswith(("args_compared:", "unit_result_at_scale:", "callform_run:")):
+            if name.startswith(("args_compared:", "unit_result_at_scale:", "callform_run:", "coherence_", "ownership_", "input_history_")):
                 rep.count(name, n)
         clause, tag = FORM_CLAUSE[form]
         new_findings = 0
@@ -1968,6 +2263,69 @@ def _selftest(M, rep):
         rep.flag("selftest:unit_deviation")
 
 
+def _selftest_round5(M, rep):
+    """the observations added in round 5 can fail: an incoherent object, results that alias an argument / share the
+    storage of two vertices, a generator that reads a quantity stored on its input mesh"""
+    import types
+    from mc import c14_more as X
+    # --- coherent object
+    good = M.procedural.icosahedron()
+    gutted = M.procedural.icosahedron()
+    gutted.face_corners.clear()
+    o = call(X.coherence_findings, gutted, "surface")
+    if X.coherence_findings(good, "surface") == [] and o.ok and "mismatch:face_corners" in [k for k, _w in o.value]:
+        rep.flag("selftest:coherent_object")
+
+    # --- ownership
+    def aliasing_triangle(P0, P1, P2):
+        m = M.procedural.triangle(P0, P1, P2)
+        m.vertices[0] = P0            # the caller's object itself
+        return m
+
+    def sharing_triangle(P0, P1, P2):
+        m = M.procedural.triangle(P0, P1, P2)
+        m.vertices[2] = m.vertices[1]  # two vertices, one storage
+        return m
+
+    def chk_with(fake):
+        def chk(M_, p, r):
+            cx = Cx(r, "triangle", p)
+            run_generator(cx, fake, "selftest", *[cx.pt(M_, q) for q in p["pts"]])
+        return chk
+    seen = {}
+    for name, fake in (("real", M.procedural.triangle), ("aliasing", aliasing_triangle), ("sharing", sharing_triangle)):
+        s_, log = Report(), []
+        _run_form("ownership", chk_with(fake), M, {"pts": TRIS[1]}, s_, log)
+        seen[name] = sorted({e[0] for e in log})
+    if seen == {"real": [], "aliasing": ["C14.ownership.argument_follows_result", "C14.ownership.result_follows_argument"],
+                "sharing": ["C14.ownership.vertices_own_their_storage"]}:
+        rep.flag("selftest:ownership")
+
+    # --- history of the input mesh
+    def remembering_cylindrify(mesh, radius=0.05, N=50):
+        if mesh.edges.has_attribute("length"):
+            att = mesh.edges.get_attribute("length")
+            L = sum(float(att[e]) for e in mesh.id_edges) / len(mesh.edges)
+        else:
+            L = M.attributes.mean_edge_length(mesh)
+        return M.mesh.merge([M.procedural.cylinder(mesh.vertices[a], mesh.vertices[b], L * radius, N, fill_caps=False)
+                             for a, b in mesh.edges])
+
+    class _Shim:
+        def __getattr__(self, n):
+            return getattr(M, n)
+    shim = _Shim()
+    shim.procedural = types.SimpleNamespace(**{n: getattr(M.procedural, n) for n in dir(M.procedural) if not n.startswith("_")})
+    shim.procedural.cylindrify_edges = remembering_cylindrify
+    seen = {}
+    for form in ("primary", "input:warm", "input:stale"):
+        s_, log = Report(), []
+        _run_form(form, check_cylindrify_edges, shim, {"poly": 1, "radius": 0.25, "N": 4}, s_, log)
+        seen[form] = sorted({e[0] + "|" + e[2] for e in log})
+    if seen == {"primary": [], "input:warm": [], "input:stale": ["C14.geometry.on_surface|mismatch:radius"]}:
+        rep.flag("selftest:input_history")
+
+
 # -------------------------------------------------------------------------------------------------
 # tasks of kind 'defaults': documented defaults and call forms
 # -------------------------------------------------------------------------------------------------
@@ -2019,7 +2377,7 @@ def default_cases(tier):
         assert OPTIONALS[gen], gen
         res[gen] = [{"p": q, "big": tier == "quick" and bool(big.get(gen, lambda _q: False)(q))} for q in cases]
         if tier == "thorough":
-            res[gen] += [{"p": q, "big": False} for q in GENERATORS[gen][0]("quick")]
+            res[gen] += [{"p": q, "big": False} for q in GENERATORS[gen][0]("quick") if "family" not in q and q.get("poly") != "star"]
     return res
 
 
@@ -2089,16 +2447,21 @@ def _selftest_defaults(M, rep):
 # number of runs in the further forms (pinned like the boxes)
 PINNED_CALLFORM_RUNS = {"quick": {"omit": 72, "positional": 70, "keyword": 70},
                         "thorough": {"omit": 787, "positional": 932, "keyword": 932}}
-PINNED_RUNS = {"quick": {"repeat": 862, "int_dtype": 364, "default_argument": 75, "unit": 1686},
-               "thorough": {"repeat": 4316, "int_dtype": 1244, "default_argument": 351, "unit": 17184}}
+PINNED_RUNS = {"quick": {"repeat": 1204, "int_dtype": 654, "default_argument": 75, "unit": 2712, "ownership": 1204, "input": 168},
+               "thorough": {"repeat": 5708, "int_dtype": 2400, "default_argument": 351, "unit": 25536, "ownership": 5708, "input": 356}}
+PINNED_DIRECTIONS = {"quick": {"lattice": 290, "tilt": 48}, "thorough": {"lattice": 1156, "tilt": 216}}       # cylinder cases
 
 
 def tasks(tier):
     out = []
     for name, (enum, _chk, batch) in GENERATORS.items():
         cases = enum(tier)
+        big = [q for q in cases if q.get("poly") == "star"]          # one task each
+        cases = [q for q in cases if q.get("poly") != "star"]
         for i in range(0, len(cases), batch):
             out.append({"gen": name, "tier": tier, "first_batch": i == 0, "cases": cases[i:i + batch]})
+        for q in big:
+            out.append({"gen": name, "tier": tier, "first_batch": False, "cases": [q]})
     dc = default_cases(tier)
     for name in GENERATORS:       # every generator: the signature; those with options: the call forms
         cases = dc.get(name, [])
@@ -2122,6 +2485,8 @@ def run_task(task, rep: Report):
             return
         if task.get("first_batch"):
             _selftest(M, rep)
+            if task["gen"] == "triangle":
+                _selftest_round5(M, rep)
         for p in task["cases"]:
             rep.count("cases:" + task["gen"])
             run_case(M, task["gen"], chk, p, rep)
@@ -2186,6 +2551,39 @@ def finish(tier, rep: Report):
     for f in ("selftest:call_forms", "selftest:signature_comparison", "selftest:same_mesh_comparison"):
         if f not in rep.flags:
             fails.append("coverage flag missing: " + f)
+    # ---- round 5
+    for f in ("form:ownership", "form:input:stale", "form:input:warm", "selftest:coherent_object", "selftest:ownership",
+              "selftest:input_history"):
+        if f not in rep.flags:
+            fails.append("coverage flag missing: " + f)
+    for label, n in PINNED_DIRECTIONS[tier].items():
+        if rep.counters.get("direction_cases:" + label, 0) != n:
+            fails.append(f"direction family ({label}): {rep.counters.get('direction_cases:' + label, 0)} cylinder cases, {n} pinned")
+    dirs = [d for d, label in direction_family(tier) if label == "lattice"]
+    for ax in range(3):
+        # computed coverage of the direction family: for every coordinate axis a direction within 30 degrees of it (both
+        # signs) whose two other components are both non-zero, one with exactly one of them non-zero, and one orthogonal to it
+        o1, o2 = [j for j in range(3) if j != ax]
+        for sgn in (1, -1):
+            steep = [d for d in dirs if sgn * d[ax] > 0 and 4 * d[ax] ** 2 > 3 * sum(c * c for c in d)]     # cos > sqrt(3)/2
+            if not any(d[o1] and d[o2] for d in steep) or not any(bool(d[o1]) != bool(d[o2]) for d in steep):
+                fails.append(f"direction family: no generic direction within 30 degrees of {'+' if sgn > 0 else '-'}e{ax}")
+        if not any(d[ax] == 0 and d[o1] and d[o2] for d in dirs):
+            fails.append(f"direction family: no generic direction orthogonal to e{ax}")
+    n_own = PINNED_RUNS[tier]["ownership"]
+    if rep.counters.get("ownership_result_moved", 0) < n_own - 8:
+        fails.append(f"ownership: the returned mesh was moved in place on {rep.counters.get('ownership_result_moved', 0)} of {n_own} runs")
+    for kind in ("array", "mesh", "default_argument"):
+        if rep.counters.get("ownership_argument_edited:" + kind, 0) == 0:
+            fails.append(f"ownership: no argument object of kind {kind} was edited after a call")
+    for gen in ("dual_mesh", "cylindrify_edges"):      # (no quantity of mouette.attributes applies to a point cloud)
+        if rep.counters.get("input_history_attributes_present:" + gen, 0) == 0:
+            fails.append(f"history of the input mesh: no input of {gen} carried a stored attribute when it was handed over")
+    if rep.counters.get("input_history_earlier_call:ok", 0) < PINNED_RUNS[tier]["input"] // 2:
+        fails.append("history of the input mesh: the generator's earlier call on the object succeeded on fewer than half of the runs")
+    for kind in ("surface", "volume", "polyline"):
+        if rep.counters.get("coherence_examined:" + kind, 0) == 0:
+            fails.append(f"coherent object: no returned {kind} mesh was asked its derived containers / connectivity")
     for kind in ("array:float", "array:int", "mesh", "default_argument"):
         if rep.counters.get("args_compared:" + kind, 0) == 0:
             fails.append(f"no argument object of kind {kind} was compared before / after a call")
